@@ -277,6 +277,16 @@ pub fn out_of_domain_calls(kind: u64) {
         }
         // a Params value with a missing key (e.g. from an incomplete JSON document)
         for key in [Prayer::Fajr, Prayer::Isha, Prayer::Imsaak] {
+            // single-date API on THIS thread, on a day whose twilight is missing (the panic happens after the
+            // extreme-latitude stage has run), under the default and an always-policy
+            for pol in [ExtremeLatitudeMethod::NearestGoodDayFajrIshaInvalid, ExtremeLatitudeMethod::SeventhOfNightFajrIshaInvalid, ExtremeLatitudeMethod::NearestLatitudeFajrIshaAlways(lat(48.5))] {
+                quiet(&mut || {
+                    let mut p = Params::new(Method::Mwl);
+                    p.extreme_latitude_method = pol;
+                    p.intervals.remove(&key);
+                    let _ = prayer_times_dt(&p, loc(60.0, 10.0, 0.0, 1.0), ymd(2023, 6, 21), None);
+                });
+            }
             quiet(&mut || {
                 let mut p = Params::new(Method::Mwl);
                 p.angles.remove(&key);
@@ -295,6 +305,34 @@ pub fn out_of_domain_calls(kind: u64) {
             let dr = DateRange::from(NaiveDate::MAX.pred_opt().unwrap()..=NaiveDate::MAX);
             let _ = prayer_times_dt_rng(&Params::new(Method::Mwl), loc(60.0, 10.0, 0.0, 1.0), &dr);
         });
+        // which failing call comes LAST on this thread rotates (state left behind by an unwinding call is
+        // consumed by the next call, so the order matters)
+        static ROT: std::sync::atomic::AtomicU64 = std::sync::atomic::AtomicU64::new(0);
+        let k = ROT.fetch_add(1, std::sync::atomic::Ordering::Relaxed);
+        let pols = [
+            ExtremeLatitudeMethod::NearestGoodDayFajrIshaInvalid,
+            ExtremeLatitudeMethod::SeventhOfNightFajrIshaInvalid,
+            ExtremeLatitudeMethod::NearestLatitudeFajrIshaInvalid(lat(48.5)),
+            ExtremeLatitudeMethod::AngleBased,
+            ExtremeLatitudeMethod::None,
+        ];
+        match k % 4 {
+            0 | 1 => quiet(&mut || {
+                // panics inside the extreme-latitude stage (interval re-application) on a day without twilight
+                let mut p = Params::new(Method::Mwl);
+                p.extreme_latitude_method = pols[(k / 4 % 5) as usize];
+                p.intervals.remove(if k % 2 == 0 { &Prayer::Fajr } else { &Prayer::Isha });
+                let _ = prayer_times_dt(&p, loc(if k % 8 < 4 { 60.0 } else { -60.0 }, 10.0, 0.0, 1.0), if k % 8 < 4 { ymd(2023, 6, 21) } else { ymd(2023, 12, 21) }, None);
+            }),
+            2 => quiet(&mut || {
+                let mut p = Params::new(Method::Mwl);
+                p.angles.remove(&Prayer::Isha);
+                let _ = prayer_times_dt(&p, loc(60.0, 10.0, 0.0, 1.0), ymd(2023, 6, 21), None);
+            }),
+            _ => quiet(&mut || {
+                let _ = prayer_times_dt(&Params::new(Method::Mwl), loc(60.0, 10.0, 0.0, 1.0), NaiveDate::MAX, None);
+            }),
+        }
     }
 }
 
